@@ -211,18 +211,32 @@ func (r *breader) readCode(c *Code) {
 		&c.name,
 		&sz,
 	)
+	// Each count is checked against what is left of the input and charged to
+	// the budget before anything is allocated for it.
+	if !r.checkCount(sz, 4) {
+		return
+	}
+	r.consumeBudget(4 * uint64(sz))
 	c.code = make([]code.Opcode, sz)
 	r.read(
-		4*uint64(sz)+8,
+		8,
 		c.code,
 		&sz,
 	)
+	if !r.checkCount(sz, 4) {
+		return
+	}
+	r.consumeBudget(4 * uint64(sz))
 	c.lines = make([]int32, sz)
 	r.read(
-		4*uint64(sz)+8,
+		8,
 		c.lines,
 		&sz,
 	)
+	if !r.checkCount(sz, 1) {
+		return
+	}
+	r.consumeBudget(16 * uint64(sz))
 	c.consts = make([]Value, sz)
 	for i := range c.consts {
 		c.consts[i] = r.readConst()
@@ -234,10 +248,36 @@ func (r *breader) readCode(c *Code) {
 		&c.CellCount,
 		&sz,
 	)
+	if r.err == nil && (c.UpvalueCount < 0 || c.RegCount < 0 || c.CellCount < 0) {
+		r.err = errInvalidCount
+	}
+	if !r.checkCount(sz, 8) {
+		return
+	}
+	r.consumeBudget(16 * uint64(sz))
 	c.UpNames = make([]string, sz)
 	for i := range c.UpNames {
 		c.UpNames[i] = r.readString()
 	}
+}
+
+// checkCount checks that n, an element count read from the input, is
+// plausible: not negative, and (when the size of the input is known) not more
+// than what is left of the input can hold if each element takes at least
+// minSize bytes.  Otherwise it records an error and returns false.
+func (r *breader) checkCount(n int64, minSize int64) bool {
+	if r.err != nil {
+		return false
+	}
+	if n < 0 {
+		r.err = errInvalidCount
+		return false
+	}
+	if l, ok := r.r.(interface{ Len() int }); ok && n > int64(l.Len())/minSize {
+		r.err = errInvalidCount
+		return false
+	}
+	return true
 }
 
 func (r *breader) read(sz uint64, xs ...interface{}) {
@@ -267,6 +307,9 @@ func (r *breader) readString() (s string) {
 	if r.err != nil {
 		return
 	}
+	if !r.checkCount(sl, 1) {
+		return
+	}
 	r.consumeBudget(uint64(sl))
 	b := make([]byte, sl)
 	_, r.err = r.r.Read(b)
@@ -287,3 +330,4 @@ func (r *breader) consumeBudget(amount uint64) {
 }
 
 var errInvalidValueType = errors.New("Invalid value type")
+var errInvalidCount = errors.New("Invalid count or length")
